@@ -19,12 +19,22 @@ def param_case(case):
             d = {p: (native.imp('pygom.utilR').rgamma, {'shape': 2.0 + i, 'rate': 5.0}) for i, p in enumerate(spec['params'])}
         t = np.linspace(0.0, 1.0, 5)
         outs = []
+        with native.quiet():
+            m.parameters = d                 # the random definition is registered once, before the seeded runs
         for rep in range(2):
+            if rep == 1:
+                # a history step between the two runs: an assignment that is rejected (unknown name) must leave the model -- and the
+                # generator its random parameters draw from -- exactly as it was
+                try:
+                    with native.quiet():
+                        m.parameters = {'no_such_parameter': 1.0}
+                    bad.append("(%s form): an unknown parameter name was accepted" % form)
+                except Exception:
+                    pass
             np.random.seed(case['seed'])
             with native.quiet():
-                m.parameters = d
                 for fn in ('solve_determ', 'simulate_param'):
-                    Y, runs = getattr(m, fn)(t[1:] if fn == 'simulate_param' else t[1:], case.get('iterations', 3), full_output=True)
+                    Y, runs = getattr(m, fn)(t[1:], case.get('iterations', 3), full_output=True)
                     outs.append((fn, rep, np.asarray(Y, float), [np.asarray(r, float) for r in runs]))
                     if not np.allclose(np.asarray(Y, float), np.mean(np.asarray(runs, float), axis=0), rtol=1e-12, atol=1e-12):
                         bad.append("%s (%s form): reported mean is not the mean of the returned runs" % (fn, form))
@@ -84,7 +94,7 @@ def run(tier='quick', seed=0):
         r['evaluations'] += 1
         if bad:
             r['failures'].append({'key': 'random-parameter case %d' % k, 'case': case, 'observed': bad[:4], 'what': 'param'})
-    r['rule'] += '; plus, on seeded progression chains (1-4 compartments, linear or mass-action rates): solve_determ and simulate_param with gamma-distributed parameters in both input forms, run twice from the same seed'
+    r['rule'] += '; plus, on seeded progression chains (1-4 compartments, linear or mass-action rates): solve_determ and simulate_param with gamma-distributed parameters in both input forms, run twice from the same seed with a rejected parameter assignment in between'
     return r
 
 
